@@ -12,8 +12,8 @@ SPEC = {
             "returned tree is judged: R1-valid with the host's root label, every host node present with the same id and label, "
             "a node with the inserted tree's id whose subtree contains the inserted tree (same labels, shape and ids at its expanded nodes; its open leaves may be refined). Odd shards run under python -O (ISLa's "
             "own asserts off: an invalid candidate is returned instead of raising); with asserts on an AssertionError out of "
-            "existential_helpers.py is the same violation. distinct = distinct (grammar, host shape, inserted label, methods)",
-    "minimum": {"quick": {"calls": 1500, "results_judged": 3000, "calls_with_results": 600, "results_judged_under_O": 800},
+            "existential_helpers.py is the same violation. A slice of the budget runs ISLa's solver on existential constraint families with insert_tree wrapped and judges the calls the solver itself makes (in situ). distinct = distinct (grammar, host shape, inserted label, methods)",
+    "minimum": {"quick": {"calls": 1500, "results_judged": 3000, "calls_with_results": 600, "results_judged_under_O": 800, "results_judged_in_situ": 30},
                 "thorough": {"calls": 40000, "results_judged": 80000, "results_judged_under_O": 20000}},
     "assumptions": ["R1 validity; ids unique in every generated host/inserted tree"],
 }
@@ -96,6 +96,12 @@ def judge(ctx, gname, g, m, host_l, ins_l, methods, maxsol, graph=None):
         from islamon.worker import exc_site
         ctx.count("other_exception:" + ":".join(exc_site(res)))
         return ctx.inconclusive("other-exception")
+    judge_results(ctx, gname, g, m, host, ins, res, methods, maxsol, wit, graph)
+
+
+def judge_results(ctx, gname, g, m, host, ins, res, methods, maxsol, wit, graph, insitu=False):
+    from isla.existential_helpers import insert_tree
+    from isla.helpers import canonical
     if res:
         ctx.count("calls_with_results")
     host_nodes = [(n.id, lab(n)) for _, n in nodes(host)]
@@ -130,13 +136,27 @@ def judge(ctx, gname, g, m, host_l, ins_l, methods, maxsol, graph=None):
                             # nodes of the inserted tree to make room for the host subtree; direct embedding alone must not
                             key = KF_CTX
         if why:
-            return ctx.violation(key, f"insert_tree result: {why}" + (" [python -O]" if ctx.optimized else ""), {**wit, "result": to_list(r)})
-        ctx.count("results_judged")
+            return ctx.violation(key, f"insert_tree result{' [in situ, called by the solver]' if insitu else ''}: {why}" + (" [python -O]" if ctx.optimized else ""),
+                                 {**wit, "result": to_list(r)})
+        ctx.count("results_judged_in_situ" if insitu else "results_judged")
         if ctx.optimized:
             ctx.count("results_judged_under_O")
-    ctx.held((gname, json.dumps(to_plain(host))[:300], lab(ins), methods, maxsol),
-             sample={"host": host.to_string(show_open_leaves=True), "insert": ins.to_string(show_open_leaves=True), "methods": methods,
+    ctx.held((gname, json.dumps(to_plain(host))[:300], lab(ins), methods, maxsol, insitu),
+             sample={"host": host.to_string(show_open_leaves=True), "insert": ins.to_string(show_open_leaves=True), "methods": methods, "in_situ": insitu,
                      "results": [r.to_string(show_open_leaves=True) for r in res[:3]], "n_results": len(res)} if res else None)
+
+
+def insitu_slice(ctx, rng):
+    """insert_tree calls made by the solver itself on existential constraints"""
+    from islamon import insitu
+    fam, gname, g, log = insitu.solver_workload(ctx, rng, ["insert_tree"], families={"defuse-mexpr", "exists-mexpr-eq", "exists-eq-literal", "nth", "exists-inside",
+                                                                                      "eq-two-nodes", "eps-mexpr", "int-eq-exists", "int-sum", "conj"})
+    m = G(g)
+    ctx.ev()
+    for tree, in_tree, res, methods, maxsol in log["insert_tree"][:40]:
+        ctx.count("calls_in_situ")
+        wit = {"grammar": g, "host": to_list(in_tree), "insert": to_list(tree), "methods": methods, "max": maxsol, "dash_O": ctx.optimized, "in_situ_family": fam}
+        judge_results(ctx, gname, g, m, in_tree, tree, res, methods, maxsol, wit, None, insitu=True)
 
 
 def run(ctx):
@@ -145,6 +165,9 @@ def run(ctx):
     rng = ctx.rng
     graphs = {}
     while ctx.running():
+        if rng.random() < 0.12:
+            insitu_slice(ctx, rng)
+            continue
         if rng.random() < 0.75:
             gname = rng.choice(INS_GRAMMARS)
             g = GG.FEATURE[gname]
